@@ -5,7 +5,7 @@
    field denotes; `next` = section offset + source offset + region size. *)
 From Coq Require Import ZArith List Bool.
 From Verif Require Import Codec.OffsetModel Labels.LabelsModel Labels.LabelsProofs Reloc.RelocModel Reloc.RelocProofs Reloc.InstalledImage.
-From Verif Require Import X86.X86Model Reloc.X86Meaning Labels.A64Dec Reloc.A64Meaning.
+From Verif Require Import X86.X86Model Reloc.X86Meaning Labels.A64Dec Reloc.A64Meaning Labels.X86RefMeaning Reloc.RelocInImage Labels.FlatModel.
 From Verif Require Import Sections.SectionModel Sections.SectionProofs Sections.ChunkModel Sections.CopyProofs Sections.JitReloc.
 Import ListNotations.
 Local Open Scope Z_scope.
@@ -372,3 +372,154 @@ Theorem C04_c10_abs_site_is_abs_entry : forall pos target loff,
   (forall h off, e_fmt (site_entry h off (SAbs pos target loff)) = ufmt 8 /\ e_old (site_entry h off (SAbs pos target loff)) = 0).
 Proof. exact c10_abs_site_is_abs_entry. Qed.
 Print Assumptions C04_c10_abs_site_is_abs_entry.
+
+(* ---- round 6: C10's expression sites by constructor: embed_label_delta(l1, l2, n) across sections, installed by JitRuntime::_add - both
+   sections exist in the flattened holder, the n installed bytes at the site decode (signed) to (offset of section t1 + o1) - (offset of
+   section t2 + o2), and that difference fits n bytes ---- *)
+Theorem C04_installed_sexpr : forall st calls base fill final img h2 i p t1 o1 t2 o2 n,
+  wf_holder (jh st) -> data_len_ok (jh st) ->
+  (forall h1, flatten (jh st) = (EOk, h1) -> NoDup (map sid h1) /\ (forall s, In s h1 -> 0 <= sid s)) ->
+  jtab st <> Some 0 -> (forall h off, sites_disjoint (map (site_entry h off) calls)) ->
+  jit_add_reloc st calls base fill = (JOk, final, img, h2) ->
+  nth_error calls i = Some (SExpr p t1 o1 t2 o2 n) -> n = 1 \/ n = 2 \/ n = 4 \/ n = 8 ->
+  exists h1 text s1 s2 w,
+    flatten (jh st) = (EOk, h1) /\ by_id h1 0 = Some text /\ by_id h1 t1 = Some s1 /\ by_id h1 t2 = Some s2 /\
+    let d := to_i64 (wrap 64 ((soff s1 + o1) - (soff s2 + o2))) in
+    decode_signed (sfmt n) w = d /\ - 2 ^ (8 * n - 1) <= d < 2 ^ (8 * n - 1) /\
+    (forall k, 0 <= k < n -> soff text + p + k < final -> cell (flat img) (soff text + p + k) = cell (le_bytes (Z.to_nat n) w) k).
+Proof. exact installed_sexpr. Qed.
+Print Assumptions C04_installed_sexpr.
+
+(* non-vacuity: a concrete two-section holder with one 4-byte expression site; all hypotheses hold, the installed bytes are 19 = (16+5)-(0+2) *)
+Theorem C04_installed_sexpr_witness : exists final img h2,
+  wf_holder (jh ex_expr_state) /\ data_len_ok (jh ex_expr_state) /\
+  (forall h1, flatten (jh ex_expr_state) = (EOk, h1) -> NoDup (map sid h1) /\ (forall s, In s h1 -> 0 <= sid s)) /\
+  jtab ex_expr_state <> Some 0 /\ (forall h off, sites_disjoint (map (site_entry h off) [SExpr 0 1 5 0 2 4])) /\
+  jit_add_reloc ex_expr_state [SExpr 0 1 5 0 2 4] 4194304 204 = (JOk, final, img, h2) /\
+  final = 22 /\ map (cell (flat img)) [0; 1; 2; 3; 4; 16; 21] = [19; 0; 0; 0; 0; 1; 6].
+Proof. exact installed_sexpr_witness. Qed.
+Print Assumptions C04_installed_sexpr_witness.
+
+(* what relocation + installation must NOT change: every .text byte outside the (conservative) ranges [value word - 2, end of value
+   word) of all sites, and every byte of every other section except the address table, is installed as the flattened holder had it *)
+Theorem C04_installed_outside_sites : forall st calls base fill final img h2,
+  wf_holder (jh st) -> data_len_ok (jh st) ->
+  (forall h1, flatten (jh st) = (EOk, h1) -> NoDup (map sid h1) /\ (forall s, In s h1 -> 0 <= sid s)) ->
+  jtab st <> Some 0 ->
+  jit_add_reloc st calls base fill = (JOk, final, img, h2) ->
+  exists h1 text,
+    flatten (jh st) = (EOk, h1) /\ by_id h1 0 = Some text /\
+    (forall k, 0 <= k < sbsize text ->
+       (forall c, In c calls -> let e := site_entry h1 (soff text) c in ~ (site_lo e <= k < site_hi e)) ->
+       soff text + k < final -> cell (flat img) (soff text + k) = cell (sdata text) k) /\
+    (forall s, In s h1 -> sid s <> 0 -> jtab st <> Some (sid s) ->
+       forall k, 0 <= k < sbsize s -> soff s + k < final -> cell (flat img) (soff s + k) = cell (sdata s) k).
+Proof. exact installed_outside_sites. Qed.
+Print Assumptions C04_installed_outside_sites.
+
+(* ---- round 6: the relocated x86 branch FOUND IN THE RELOCATED BYTES: whatever well-formed immediate-only instruction with a 4-byte
+   immediate lies in the bytes relocate_to_base produced so that it occupies the entry's region, decoding those bytes with C01's proven
+   decoder designates the relocation's absolute target; the immediate is read from the bytes, not assumed ---- *)
+Theorem C04_reloc_branch_in_image : forall base asize atoff reserved last es r data i e o (m : mode) sh s c xr xx xb xr' (A B : list Z),
+  relocate base asize atoff reserved last es = inl r ->
+  (forall e', In e' es -> site_wf data e') -> sites_disjoint es ->
+  nth_error es i = Some e -> nth_error (rr_outs r) i = Some o ->
+  e_kind e = RAbsToRel -> (if is64 m then 4 <? asize else asize <=? 4) = true -> e_fmt e = fmt_of_kind K_Rel32 -> e_old e = 0 ->
+  patch_all data es (rr_outs r) = A ++ senc m sh s c ++ B ->
+  zlen A = e_off e -> zlen (senc m sh s c) = e_region e -> e_lead e + 4 = e_region e -> sh_imm sh = 4%nat ->
+  s_modrm s = MNone xr xx xb xr' -> wf m sh s = true -> adm m sh s c = true ->
+  site_target m CBranch sh (base + e_secoff e + e_off e) (senc m sh s c ++ B) = Some (e_payload e mod 2 ^ abits m).
+Proof. exact reloc_branch_in_image. Qed.
+Print Assumptions C04_reloc_branch_in_image.
+
+Theorem C04_reloc_branch_in_image_witness :
+  let sh := mkSh false false 4 1 in let c := mkC false 0 false in
+  exists r o, relocate 4194304 8 0 0 false [ex_jmp_entry] = inl r /\ nth_error (rr_outs r) O = Some o /\
+    (forall e', In e' [ex_jmp_entry] -> site_wf [233; 0; 0; 0; 0] e') /\ sites_disjoint [ex_jmp_entry] /\
+    patch_all [233; 0; 0; 0; 0] [ex_jmp_entry] (rr_outs r) = [] ++ senc M64 sh (ex_jmp 4091) c ++ [] /\
+    wf M64 sh (ex_jmp 4091) = true /\ adm M64 sh (ex_jmp 4091) c = true /\
+    site_target M64 CBranch sh 4194304 (senc M64 sh (ex_jmp 4091) c ++ []) = Some 4198400.
+Proof. exact reloc_branch_in_image_witness. Qed.
+Print Assumptions C04_reloc_branch_in_image_witness.
+
+
+(* x86-64 `[abs]` operand turned RIP-relative (AbsToRel on the disp32 of a memory operand, with or without a trailing immediate) found in
+   the relocated bytes: the displacement is read from the bytes *)
+Theorem C04_reloc_rip_in_image : forall base asize atoff reserved last es r data i e o sh s c reg d (A B : list Z),
+  relocate base asize atoff reserved last es = inl r ->
+  (forall e', In e' es -> site_wf data e') -> sites_disjoint es ->
+  nth_error es i = Some e -> nth_error (rr_outs r) i = Some o ->
+  e_kind e = RAbsToRel -> 4 < asize -> e_fmt e = fmt_of_kind K_Rel32 -> e_old e = 0 ->
+  patch_all data es (rr_outs r) = A ++ senc M64 sh s c ++ B ->
+  zlen A = e_off e -> zlen (senc M64 sh s c) = e_region e -> e_lead e + 4 + Z.of_nat (sh_imm sh) = e_region e ->
+  s_modrm s = MMem reg (mkM BRip None 0 d) -> wf M64 sh s = true -> adm M64 sh s c = true ->
+  site_target M64 CMem sh (base + e_secoff e + e_off e) (senc M64 sh s c ++ B) = Some (e_payload e mod 2 ^ 64).
+Proof. exact reloc_rip_in_image. Qed.
+Print Assumptions C04_reloc_rip_in_image.
+
+(* the word READ from the relocated bytes at a site is the word the model computed (any kind, any width) *)
+Theorem C04_relocated_site_word : forall base asize atoff reserved last es r data i e o,
+  relocate base asize atoff reserved last es = inl r ->
+  (forall e', In e' es -> site_wf data e') -> sites_disjoint es ->
+  nth_error es i = Some e -> nth_error (rr_outs r) i = Some o ->
+  0 <= o_word o < 2 ^ (8 * vsize (e_fmt e)) ->
+  FlatModel.read_word (patch_all data es (rr_outs r)) (e_off e + e_lead e) (Z.to_nat (vsize (e_fmt e))) = o_word o.
+Proof. exact relocated_site_word. Qed.
+Print Assumptions C04_relocated_site_word.
+
+(* an AArch64 label-bearing instruction relocated to an absolute address: the 32-bit word read from the relocated bytes, decoded by the
+   structural decoder, designates payload - region size (AsmJit measures AbsToRel from the end of the region also on AArch64) *)
+Theorem C04_a64_reloc_in_image : forall base asize atoff reserved last es r data idx e o i,
+  relocate base asize atoff reserved last es = inl r ->
+  (forall e', In e' es -> site_wf data e') -> sites_disjoint es ->
+  nth_error es idx = Some e -> nth_error (rr_outs r) idx = Some o ->
+  e_kind e = RAbsToRel -> 4 < asize -> e_fmt e = fmt_of_kind (kind_of i) -> e_old e = a64_enc (set_imm i 0) ->
+  a64_wf (set_imm i 0) -> hole_ok (kind_of i) (e_old e) = true -> (forall rg v, i <> IAdr true rg v) ->
+  let pc := base + e_secoff e + e_off e in
+  a64_site_target pc (FlatModel.read_word (patch_all data es (rr_outs r)) (e_off e + e_lead e) 4) = Some ((e_payload e - e_region e) mod 2 ^ 64).
+Proof. exact a64_reloc_in_image. Qed.
+Print Assumptions C04_a64_reloc_in_image.
+
+Theorem C04_reloc_rip_in_image_witness :
+  let sh := mkSh true false 0 1 in let c := mkC false 0 false in
+  exists r o, relocate 4194304 8 0 0 false [ex_lea_entry] = inl r /\ nth_error (rr_outs r) O = Some o /\
+    (forall e', In e' [ex_lea_entry] -> site_wf [72; 141; 5; 0; 0; 0; 0] e') /\ sites_disjoint [ex_lea_entry] /\
+    patch_all [72; 141; 5; 0; 0; 0; 0] [ex_lea_entry] (rr_outs r) = [] ++ senc M64 sh (ex_lea 4089) c ++ [] /\
+    wf M64 sh (ex_lea 4089) = true /\ adm M64 sh (ex_lea 4089) c = true /\
+    site_target M64 CMem sh 4194304 (senc M64 sh (ex_lea 4089) c ++ []) = Some 4198400.
+Proof. exact reloc_rip_in_image_witness. Qed.
+Print Assumptions C04_reloc_rip_in_image_witness.
+
+Theorem C04_a64_reloc_in_image_witness :
+  exists r o, relocate 4194304 8 0 0 false [ex_b_entry] = inl r /\ nth_error (rr_outs r) O = Some o /\
+    (forall e', In e' [ex_b_entry] -> site_wf [0; 0; 0; 20] e') /\ sites_disjoint [ex_b_entry] /\
+    e_old ex_b_entry = a64_enc (set_imm (IB false 0) 0) /\ a64_wf (set_imm (IB false 0) 0) /\ hole_ok (kind_of (IB false 0)) (e_old ex_b_entry) = true /\
+    a64_site_target 4194304 (FlatModel.read_word (patch_all [0; 0; 0; 20] [ex_b_entry] (rr_outs r)) 0 4) = Some 4198396.
+Proof. exact a64_reloc_in_image_witness. Qed.
+Print Assumptions C04_a64_reloc_in_image_witness.
+
+
+(* x86-32 `op reg, [label + disp]` / `op [label + disp], imm` (RelToAbs on the disp32 of an absolute memory operand) found in the relocated
+   bytes: decoding them designates base + target section offset + payload, which fits 32 bits; the displacement is read from the bytes *)
+Theorem C04_reloc_abs32_in_image : forall base asize atoff reserved last es r data i e o sh s c reg d toff (A B : list Z),
+  relocate base asize atoff reserved last es = inl r ->
+  (forall e', In e' es -> site_wf data e') -> sites_disjoint es ->
+  nth_error es i = Some e -> nth_error (rr_outs r) i = Some o ->
+  e_kind e = RRelToAbs (Some toff) -> e_fmt e = ufmt 4 -> e_old e = 0 ->
+  patch_all data es (rr_outs r) = A ++ senc M32 sh s c ++ B ->
+  zlen A = e_off e -> e_lead e + 4 + Z.of_nat (sh_imm sh) = zlen (senc M32 sh s c) ->
+  s_modrm s = MMem reg (mkM BNone None 0 d) -> p_67 (s_pfx s) = false -> wf M32 sh s = true -> adm M32 sh s c = true ->
+  site_target M32 CMem sh (base + e_secoff e + e_off e) (senc M32 sh s c ++ B) = Some ((e_payload e + base + toff) mod 2 ^ 64) /\
+  (e_payload e + base + toff) mod 2 ^ 64 < 2 ^ 32.
+Proof. exact reloc_abs32_in_image. Qed.
+Print Assumptions C04_reloc_abs32_in_image.
+
+Theorem C04_reloc_abs32_in_image_witness :
+  let sh := mkSh true false 0 1 in let c := mkC false 0 false in
+  exists r o, relocate 4194304 4 0 0 false [ex_abs32_entry] = inl r /\ nth_error (rr_outs r) O = Some o /\
+    (forall e', In e' [ex_abs32_entry] -> site_wf [139; 5; 0; 0; 0; 0] e') /\ sites_disjoint [ex_abs32_entry] /\
+    patch_all [139; 5; 0; 0; 0; 0] [ex_abs32_entry] (rr_outs r) = [] ++ senc M32 sh (ex_mov32 4194568) c ++ [] /\
+    wf M32 sh (ex_mov32 4194568) = true /\ adm M32 sh (ex_mov32 4194568) c = true /\
+    site_target M32 CMem sh 4194304 (senc M32 sh (ex_mov32 4194568) c ++ []) = Some 4194568.
+Proof. exact reloc_abs32_in_image_witness. Qed.
+Print Assumptions C04_reloc_abs32_in_image_witness.
